@@ -120,7 +120,7 @@ def run_roundtrip(args, kind="roundtrip"):
     pid, root, base = args
     sys.path.insert(0, VERIF)
     from sa.main import run_property
-    tmp = {"roundtrip": roundtrip_copy, "rename": rename_copy, "extract-return": extract_return_copy, "invert-if": invert_if_copy}[kind](root)
+    tmp = {"roundtrip": roundtrip_copy, "rename": rename_copy, "extract-return": extract_return_copy, "invert-if": invert_if_copy, "anf": anf_copy, "inline-temps": inline_copy}[kind](root)
     try:
         rc, rep = run_property(pid, "quick", tmp, evidence_dir=os.path.join(tmp, "_ev"), quiet=True)
         refuted = {ob.key for ob in rep.obs if ob.status == "REFUTED"}
@@ -128,7 +128,8 @@ def run_roundtrip(args, kind="roundtrip"):
         b_rc, b_ref, b_und = base
         ok = rc == b_rc and refuted == b_ref and undec == b_und
         what = {"roundtrip": "ast.unparse round trip", "rename": "renaming all function locals", "extract-return": "binding every returned expression to a temporary first",
-                "invert-if": "swapping the branches of every if/else under the negated test"}[kind]
+                "invert-if": "swapping the branches of every if/else under the negated test", "anf": "binding every nested call to a temporary first",
+                "inline-temps": "inlining every single-use temporary"}[kind]
         why = f"verdict and keys unchanged after {what}" if ok else f"rc {b_rc}->{rc}; refuted diff {sorted(refuted ^ b_ref)[:4]}; undecided diff {sorted(undec ^ b_und)[:4]}"
         if not ok and rc == 2:
             why += " | " + " ".join(ln for ln in getattr(rep, "output", []) if ln.startswith("ANALYSIS"))[:400]
@@ -156,13 +157,15 @@ def validate(pids, root="/repo", jobs=16, verbose=True):
         futs += [ex.submit(run_rename, (pid, root, base_full[pid])) for pid in pids]
         futs += [ex.submit(run_extract, (pid, root, base_full[pid])) for pid in pids]
         futs += [ex.submit(run_invert, (pid, root, base_full[pid])) for pid in pids]
+        futs += [ex.submit(run_anf, (pid, root, base_full[pid])) for pid in pids]
+        futs += [ex.submit(run_inline, (pid, root, base_full[pid])) for pid in pids]
         for f in futs:
             results.append(f.result())
     bad = [r for r in results if not r["ok"]]
     if verbose:
         for r in results:
             print(f"selftest {'ok  ' if r['ok'] else 'FAIL'} {r['id']}: {r['why']}")
-        print(f"selftest: {len(results) - len(bad)}/{len(results)} passed ({len(mutants)} mutants, {len(pids)} unparse round trips, {len(pids)} local-rename, {len(pids)} extract-return and {len(pids)} invert-if round trips)")
+        print(f"selftest: {len(results) - len(bad)}/{len(results)} passed ({len(mutants)} mutants, 6 x {len(pids)} round trips: unparse, local-rename, extract-return, invert-if, anf, inline-temps)")
     return bad, results
 
 
@@ -257,3 +260,87 @@ def invert_if_copy(root):
 
 def run_invert(args):
     return run_roundtrip(args, kind="invert-if")
+
+
+# ------------------------------------------------------------------------------------------------
+_COND = (ast.Lambda, ast.ListComp, ast.GeneratorExp, ast.SetComp, ast.DictComp, ast.IfExp, ast.BoolOp)
+
+
+class _Anf(ast.NodeTransformer):
+    """every call nested in the value of a simple statement is bound to a fresh temporary first (`f(g(x))` -> `t = g(x); f(t)`),
+    except under conditionally evaluated constructs; the opposite direction of sa/normalise.py"""
+    def __init__(self):
+        self.n = 0
+
+    def _flatten(self, st):
+        if not ((isinstance(st, (ast.Assign, ast.Expr)) or (isinstance(st, ast.Return) and st.value is not None)) and not isinstance(st.value, _COND)):
+            return [st]
+        pre = []
+
+        def visit(node, top):
+            for f, val in ast.iter_fields(node):
+                if isinstance(val, list):
+                    for i, c in enumerate(val):
+                        if isinstance(c, ast.keyword):
+                            if not isinstance(c.value, _COND):
+                                c.value = visit(c.value, False)
+                        elif isinstance(c, ast.AST) and not isinstance(c, _COND) and not isinstance(c, ast.Starred):
+                            val[i] = visit(c, False)
+                elif isinstance(val, ast.AST) and not isinstance(val, _COND) and not isinstance(val, (ast.expr_context, ast.operator, ast.unaryop, ast.cmpop, ast.boolop)):
+                    setattr(node, f, visit(val, False))
+            if isinstance(node, ast.Call) and not top:
+                self.n += 1
+                name = f"_anf{self.n}"
+                pre.append(ast.Assign(targets=[ast.Name(id=name, ctx=ast.Store())], value=node, lineno=getattr(st, "lineno", 1)))
+                return ast.Name(id=name, ctx=ast.Load())
+            return node
+
+        st.value = visit(st.value, True)
+        return pre + [st]
+
+    def generic_visit(self, node):
+        super().generic_visit(node)
+        for f in ("body", "orelse", "finalbody"):
+            b = getattr(node, f, None)
+            if isinstance(b, list) and b and isinstance(b[0], ast.stmt) and not isinstance(node, (ast.Module, ast.ClassDef)):
+                out = []
+                for s in b:
+                    out += self._flatten(s)
+                setattr(node, f, out)
+        return node
+
+
+def _transform_copy(root, fn):
+    tmp = make_copy(root)
+    for dp, dn, fns in os.walk(os.path.join(tmp, "cola")):
+        for f in fns:
+            if f.endswith(".py"):
+                p = os.path.join(dp, f)
+                with open(p) as fh:
+                    tree = ast.parse(fh.read())
+                tree = fn(tree)
+                ast.fix_missing_locations(tree)
+                with open(p, "w") as fh:
+                    fh.write(ast.unparse(tree) + "\n")
+    return tmp
+
+
+def anf_copy(root):
+    return _transform_copy(root, lambda t: _Anf().visit(t))
+
+
+def inline_copy(root):
+    from sa.normalise import normalise
+
+    def fn(t):
+        normalise(t)
+        return t
+    return _transform_copy(root, fn)
+
+
+def run_anf(args):
+    return run_roundtrip(args, kind="anf")
+
+
+def run_inline(args):
+    return run_roundtrip(args, kind="inline-temps")
